@@ -57,6 +57,8 @@ def judge_rt(c, line):
     """The round-trip property on the implementation alone. Returns (ok, why)."""
     if line.startswith("panic") or " ; panic" in line:
         return False, "panic"
+    if line == "hang":
+        return False, "no result within the per-case time limit"
     enc_status, hexs, dec_status, val, rest = split_rt(line)
     if enc_status == "err":
         # legitimate only for values the format cannot carry (char >= 0x10000)
@@ -135,6 +137,8 @@ def judge_static_rt(env):
     def j(c, line):
         if "panic" in line.split(" ")[0] or " ; panic" in line:
             return False, "panic"
+        if line == "hang":
+            return False, "no result within the per-case time limit"
         enc_part, _, dec_part = line.partition(" ; ")
         t = ("named", c["w"])
         if enc_part.startswith("err"):
